@@ -104,6 +104,47 @@ pub fn corpus_docs() -> Vec<(&'static str, &'static str, &'static str)> {
     ]
 }
 
+pub fn rules_of(prop: &str) -> Vec<&'static str> {
+    match prop {
+        "C04" => vec!["FieldsOnCorrectType", "LeafFieldSelections"],
+        "C05" => vec!["OverlappingFieldsCanBeMerged"],
+        "C06" => vec!["UniqueFragmentNames", "KnownFragmentNames", "KnownTypeNames", "FragmentsOnCompositeTypes", "NoUnusedFragments", "NoFragmentsCycle", "PossibleFragmentSpreads"],
+        "C07" => vec!["UniqueVariableNames", "VariablesAreInputTypes", "NoUndefinedVariables", "NoUnusedVariables", "VariablesInAllowedPosition"],
+        "C08" => vec!["ValuesOfCorrectType"],
+        "C09" => vec!["KnownArgumentNames", "UniqueArgumentNames", "ProvidedRequiredArguments"],
+        "C10" => vec!["KnownDirectives", "UniqueDirectivesPerLocation"],
+        "C11" => vec!["UniqueOperationNames", "LoneAnonymousOperation", "SingleFieldSubscriptions"],
+        _ => crate::op_validate::ALL_RULES.to_vec(),
+    }
+}
+
+fn random_plan(rng: &mut Rng) -> Vec<&'static str> {
+    let all = crate::op_validate::ALL_RULES;
+    match rng.below(6) {
+        0 => all.to_vec(),
+        1 => vec![*rng.pick(all)],
+        2 => {
+            // random sub-sequence
+            all.iter().filter(|_| rng.pct(40)).cloned().collect::<Vec<_>>()
+        }
+        3 => {
+            let mut v: Vec<&'static str> = all.iter().filter(|_| rng.pct(50)).cloned().collect();
+            rng.shuffle(&mut v);
+            v
+        }
+        4 => {
+            // repetitions
+            let n = rng.range(2, 6);
+            (0..n).map(|_| *rng.pick(all)).collect()
+        }
+        _ => {
+            let mut v = all.to_vec();
+            rng.shuffle(&mut v);
+            v
+        }
+    }
+}
+
 pub fn cases_for(prop: &str, tier: &str, seed: u64, shard: (usize, usize)) -> (Vec<SchemaInfo>, Vec<Case>) {
     let pool = schema_pool();
     let mut rng = Rng::new(seed.wrapping_mul(1000).wrapping_add(shard.0 as u64));
@@ -123,6 +164,42 @@ pub fn cases_for(prop: &str, tier: &str, seed: u64, shard: (usize, usize)) -> (V
             }
             let n = budget(tier, 1600, 40000) / shard.1;
             family_random_docs(&mut cases, &pool, &mut rng, n, "trace", &format!("t{}x", shard.0), true);
+        }
+        "C13" => {
+            let n = budget(tier, 1200, 30000) / shard.1;
+            let mut tmp: Vec<Case> = vec![];
+            family_random_docs(&mut tmp, &pool, &mut rng, n, "validate13", &format!("p{}x", shard.0), false);
+            if shard.0 == 0 {
+                for (id, sname, doc) in corpus_docs() {
+                    let si = pool.iter().position(|s| s.name == sname).unwrap();
+                    tmp.push(Case { id: format!("corpus-{}", id), family: "corpus".into(), schema: si, op: "validate13".into(), doc: Some(doc.to_string()), extra: vec![], note: String::new() });
+                }
+            }
+            for mut c in tmp {
+                let mut plan = random_plan(&mut rng);
+                if plan.is_empty() {
+                    plan = vec!["KnownTypeNames"];
+                }
+                c.note = format!("plan-len={}", plan.len());
+                c.extra = vec![format!("(plan {})", plan.join(" "))];
+                cases.push(c);
+            }
+        }
+        "C04" | "C05" | "C06" | "C07" | "C08" | "C09" | "C10" | "C11" => {
+            let rules = rules_of(prop);
+            let n = budget(tier, 1600, 40000) / shard.1;
+            let mut tmp: Vec<Case> = vec![];
+            family_random_docs(&mut tmp, &pool, &mut rng, n, "validate", &format!("r{}x", shard.0), false);
+            if shard.0 == 0 {
+                for (id, sname, doc) in corpus_docs() {
+                    let si = pool.iter().position(|s| s.name == sname).unwrap();
+                    tmp.push(Case { id: format!("corpus-{}", id), family: "corpus".into(), schema: si, op: "validate".into(), doc: Some(doc.to_string()), extra: vec![], note: String::new() });
+                }
+            }
+            for mut c in tmp {
+                c.extra = vec![format!("(plan {})", rules.join(" "))];
+                cases.push(c);
+            }
         }
         "VAL" => {
             // development job: default plan + every singleton on random documents
@@ -153,6 +230,7 @@ pub fn run_impl(c: &Case, si: &SchemaInfo, doc: Option<&q::Document>) -> Vec<Str
     match c.op.as_str() {
         "trace" => crate::op_trace::run_trace(&si.doc, doc.unwrap()),
         "strace" => crate::op_trace::run_strace(&si.doc),
+        "validate13" => crate::op_validate::run_validate13(&si.doc, doc.unwrap(), &crate::op_validate::parse_plan(&c.extra[0])),
         "validate" => crate::op_validate::run_validate(&si.doc, doc.unwrap(), &crate::op_validate::parse_plan(&c.extra[0])),
         _ => vec!["NOIMPL".to_string()],
     }
